@@ -408,8 +408,51 @@ def r10_all_instructions_collected(chk):
                 chk.bad("R10", "collect:" + i.key, i.file, i.line, i.what, i.expected, i.found)
 
 
+def r11_type_grammar(chk, rule="R11"):
+    """The counterpart type and the error type written in a trait instruction are parsed with the full path grammar (generic arguments
+    allowed): `#[try_map(Dto<T>, MyErr<i32>)]` must yield its impls. A parser restricted to plain identifiers / mod-style paths rejects
+    (or truncates) such an instruction and its impls are missing."""
+    chk.rule(rule, "TraitAttrCore::parse reads `ty` and `err_ty` with the full path grammar (parse::<syn::Path>), never an identifier-only or mod-style parser", floor=2)
+    fi = chk.repo.fn(ATTR, "parse", impl="TraitAttrCore")
+    lits = [n for n in walk(fi.body) if n.get("k") == "Struct" and n.get("path", "").split("::")[-1].strip() == "TraitAttrCore"]
+    if len(lits) != 1:
+        raise Inconclusive(f"TraitAttrCore::parse: {len(lits)} TraitAttrCore literals")
+
+    def pname(p_):
+        p_ = p_.get("pat") if p_.get("k") == "PType" else p_
+        return p_.get("name") if p_.get("k") == "PIdent" else None
+    FULL = re.compile(r"::<(syn::)?(Path|TypePath|Type)>")
+    NARROW = re.compile(r"::<(syn::)?(Ident|Lifetime|LitStr)>")
+    for member in ("ty", "err_ty"):
+        fx = [f_["expr"] for f_ in lits[0]["fields"] if f_["member"] == member]
+        if len(fx) != 1:
+            raise Inconclusive(f"TraitAttrCore literal has no `{member}` field")
+        e = fx[0]
+        if e.get("k") == "Path" and len(e.get("segs", [])) == 1:
+            ls = [st for st in walk(fi.body) if st.get("k") == "Let" and pname(st["pat"]) == e["segs"][0] and st.get("init") is not None]
+            if len(ls) != 1:
+                raise Inconclusive(f"TraitAttrCore::parse: local `{e['segs'][0]}` is not a single let")
+            e = ls[0]["init"]
+        full, narrow = [], []
+        for n in walk(e):
+            if n.get("k") == "MethodCall" and n["method"] == "parse":
+                tf = (n.get("turbofish") or "").replace(" ", "")
+                if FULL.search(tf):
+                    full.append(tf)
+                elif NARROW.search(tf):
+                    narrow.append("parse" + tf)
+            if n.get("k") == "Path" and n.get("segs") and n["segs"][-1] in ("parse_mod_style", "parse_any", "parse_ident"):
+                narrow.append("::".join(n["segs"]))
+            if n.get("k") == "MethodCall" and n["method"] in ("parse_mod_style", "parse_any"):
+                narrow.append(n["method"])
+        chk.shape(rule, f"grammar[{member}]", bool(full) and not narrow, bool(narrow), ATTR, e.get("line", fi.line),
+                  what=f"`{member}` of a trait instruction is read by a parser that does not accept generic arguments: instructions naming `X<..>` are rejected and their impls are not generated",
+                  expected="parse::<syn::Path>()", found=(narrow or full or ["no recognised parser call"])[:3])
+
+
 def run(chk):
     chk.guard("R10", lambda: r10_all_instructions_collected(chk))
+    chk.guard("R11", lambda: r11_type_grammar(chk))
     chk.guard("R9", lambda: r9_validation_partition(chk))
     chk.guard("R8", lambda: r8_typepath_ctor(chk))
     chk.guard("R1", lambda: r1_names(chk))
